@@ -30,6 +30,25 @@ func isCaps(p string) bool {
 	return p != ""
 }
 
+// stopWordPool: every purely alphabetic word of the stop-word tables the tool ships, capitalised for use as a later
+// word of a name. One name in five carries one of them: each stop word must be left out of the concept counts
+// (a table entry that is silently dropped on the way to the analyser shows only in a name that contains it).
+var stopWordPool = func() []string {
+	var out []string
+	for _, w := range stopTables() {
+		ok := len(w) > 1
+		for _, c := range w {
+			if c < 'a' || c > 'z' {
+				ok = false
+			}
+		}
+		if ok {
+			out = append(out, string(w[0]-32)+w[1:])
+		}
+	}
+	return out
+}()
+
 func methodName(r *rand.Rand, glued, digits bool) []string {
 	if glued {
 		// the known-defect shape: a single lower-case letter directly followed by an ALLCAPS word
@@ -53,6 +72,8 @@ func methodName(r *rand.Rand, glued, digits bool) []string {
 			p = []string{"2", "42", "3"}[r.Intn(3)]
 		case !prevCaps && !singleHead && r.Intn(5) == 0:
 			p = capsWords[r.Intn(len(capsWords))]
+		case len(stopWordPool) > 0 && r.Intn(5) == 0:
+			p = stopWordPool[r.Intn(len(stopWordPool))]
 		default:
 			p = laterWords[r.Intn(len(laterWords))]
 		}
@@ -302,6 +323,50 @@ func gen(seed int64, n int, tier string) []interface{} {
 					if r.Intn(5) == 0 {
 						m.Calls = append(m.Calls, cl) // the same callee again
 					}
+				}
+			}
+		}
+		// a namesake: one case in five has a second class of the same simple name in the other package (two StringUtils
+		// of one project are two classes for every figure of the summary). Only a class nobody calls gets one, and the
+		// namesake calls nothing, so no receiver of the rendered sources is ambiguous.
+		if r.Intn(5) == 0 {
+			ci := r.Intn(len(in.Classes))
+			o := in.Classes[ci]
+			called := false
+			for _, c := range in.Classes {
+				for _, m := range c.Members {
+					for _, cl := range m.Calls {
+						if cl.Cls == concat(o.Name) {
+							called = true
+						}
+					}
+				}
+			}
+			if !called {
+				t := o
+				if o.Pkg == "p" {
+					t.Pkg = "q.r"
+				} else {
+					t.Pkg = "p"
+				}
+				t.Name = append([]string{}, o.Name...)
+				t.Members = nil
+				for _, m := range o.Members {
+					m2 := m
+					m2.Name = append([]string{}, m.Name...)
+					m2.Pre = append([]string{}, m.Pre...)
+					m2.Rets = append([]string{}, m.Rets...)
+					m2.Calls = []Call{}
+					t.Members = append(t.Members, m2)
+				}
+				dup := false
+				for _, c := range in.Classes {
+					if c.Pkg == t.Pkg && concat(c.Name) == concat(t.Name) {
+						dup = true
+					}
+				}
+				if !dup {
+					in.Classes = append(in.Classes, t)
 				}
 			}
 		}
